@@ -6,7 +6,7 @@
    and one visit schedule per request for the map-range install_if loop.
    Theorems quantify over EVERY schedule (also ones no Go run can follow). *)
 From Apko Require Import Base.Prelude Generated.VersionConsts Generated.C03Version Model.Version Model.Resolver
-  Spec.ResolveSpec Proofs.ResolveProofs Proofs.ResolveProofs2 Proofs.ResolveTheorems Proofs.ResolveEnvelope.
+  Spec.ResolveSpec Proofs.ResolveProofs Proofs.ResolveProofs2 Proofs.ResolveTheorems Proofs.ResolveEnvelope Proofs.ResolveNoPanic.
 Open Scope string_scope. Open Scope list_scope. Open Scope nat_scope.
 
 (* the verified validator run on the implementation's results decides the specification *)
@@ -52,6 +52,16 @@ Proof. exact termination_lemma. Qed.
 Print Assumptions c02_termination.
 Example c02_termination_example :
   resolve [wp "a" "1" ["b"] [] []; wp "b" "1" ["a"; "b"] [] []] ["a"] [] [] = Ok [1; 0].
+Proof. vm_compute. reflexivity. Qed.
+
+(* the `panic` at the end of conflictingVersion is unreachable (every package the
+   name map lists under a name is named so or provides it): the resolver's own
+   logic never panics, on any universe, world, initial set or schedule *)
+Theorem c02_no_panic : forall U W dq0 scheds, resolve U W dq0 scheds <> Panic.
+Proof. exact resolve_no_panic. Qed.
+Print Assumptions c02_no_panic.
+Example c02_no_panic_example :
+  resolve [wp "a" "1" [] ["v"; "v=2"] []; wp "b" "1" ["a"] ["v"; "a=1"] []] ["b"; "v"] [] [] = Ok [1].
 Proof. vm_compute. reflexivity. Qed.
 
 (* REFUTED: "a successful result is closed" is false of the faithful model and
